@@ -98,7 +98,10 @@ RULE = ('abstract hit lists (1-8 hits; all nine sign combinations of subject/que
         'every column of every table next to the required ones with signed / zero / padded / exponent / inf / nan / non-numeric / empty '
         'tokens; free text holding the other layouts\' separators; outfmt= and "# Fields:" written with other blanks; line soups (comment, '
         'blank, name-row, Fields, ruler lines and one boundary line anywhere, blanks around lines); A, B, A+B concatenation histories; '
-        'about 1 500 literals handed to float() and int(). Cases are dealt out over the shards by size.')
+        'about 1 500 literals handed to float() and int(). Transport stream: each rendering through path / pathlib.Path / text handle / '
+        'binary handle / handles positioned behind a prefix / BytesIO / StringIO / single- and multi-member .gz (1-4 cuts at line ends or at any '
+        'byte, empty members) / archive="gz" / zip / tar.gz / one-file glob / a stdin pipe, fmt given and detected (default columns, header lines, '
+        'outfmt=), with encoding=, CRLF and a missing final newline. Cases are dealt out over the shards by size.')
 TRUSTED = ['CPython int()/float()/str.split/strip/startswith and text-mode line iteration (modelled, compared on every case)',
            'float values: the model keeps the decimal literal; the harness converts it with fractions.Fraction and compares bit patterns',
            'modelled: sugar/_io/tab/core.py _headers_from_fmtstrings, read_tabular; the blast/mmseqs/infernal reader wrappers; '
@@ -796,7 +799,7 @@ FLOAT_TOKS = ['0', '0.0', '-0.0', '0e0', '1e-5', '1E-5', '1.e5', '.5e1', '5.', '
 STR_TOKS = ['-1', '0', '1e5', 'N/A', '', 'inf', '+3', 'a b', '0.5', 'plus', '#x', '1_0']
 
 
-def typed_cases():
+def typed_cases(tier='thorough'):
     """EVERY column of every dialect's table (the oracle's own table, written from the manuals) next to the eight required
     columns, with tokens that separate the three declared types: signed / zero / padded / non-decimal integers, plain and
     exponent floats, zeros, inf/nan words, text that is no number, the empty field; given by outfmt=, by the '# Fields:'
@@ -832,7 +835,8 @@ def typed_cases():
             if col in CORE['infernal'] or col == 'sstrand':
                 continue
             toks = [x for x in (INT_TOKS if t is int else FLOAT_TOKS if t is float else STR_TOKS) if x.strip() and ' ' not in x]
-            if style != '2' and col not in ('pass', 'gc'):
+            full = style == '2' if tier == 'thorough' else (style == '2' and col in ('idx', 'bias', 'overlap', 'anyidx', 'mlen', 'clan'))
+            if not full and col not in ('pass', 'gc'):
                 toks = toks[:6]
             hits = []
             for j, tk in enumerate(toks):
@@ -1050,14 +1054,95 @@ def freetext_cases():
     return out
 
 
+# ----------------------------------------------------------------------------- transport stream
+# Every documented way to hand a table to read_fts (sugar/_io/main.py: _resolve_fname, _file_opener, detect), format given
+# and detected.  '_tr' marks a case of this stream; impl_transport() builds the bytes and the container from the case.
+NEW_VIAS = ['file', 'path', 'texthandle', 'binfile', 'bytesio', 'stringio', 'binfile_off', 'bytesio_off', 'gz', 'gzm', 'gzarg',
+            'zip', 'tar', 'glob', 'stdin']
+OFF_PREFIX = b'# junk before the table\tx\ty\nnot a row\n'
+
+
+def rand_cuts(rng, mode=None):
+    """member boundaries of a multi-member gzip file: [how, permille of the file]; 'line' = at the end of the line holding that
+    byte, 'in' = exactly there (inside a line, a token or a line terminator)"""
+    cuts = [[mode or rng.choice(['line', 'in']), rng.randint(80, 700)]]
+    for _ in range(rng.choice([0, 0, 1, 2])):
+        cuts.append([mode or rng.choice(['line', 'in']), rng.randint(80, 980)])
+    if rng.random() < 0.15:
+        cuts.append(list(cuts[0]))                      # an empty member in the middle
+    return cuts
+
+
+def clean_hit(rng):
+    """a hit whose default-column row every sniffer classifies by the documented rule (identity 1..100 % / 0..1)"""
+    h = rand_hit(rng)
+    h['pid'] = rng.choice(['100.000', '95.408', '87.135', '99'])
+    h['fid'] = rng.choice(['1.000', '0.949', '0.864', '0.933', '0.07'])
+    h['sstr'] = 'consistent'
+    return h
+
+
+def transport_case(rng, via, nofmt, rendering=None, cutmode=None):
+    if nofmt or rendering:
+        d, style, colmode = rendering or rng.choice(RENDERINGS)
+        c = {'_d': d, '_style': style, '_colmode': colmode, 'hits': [clean_hit(rng) for _ in range(rng.choice([2, 3, 4, 6]))]}
+        if nofmt and colmode == 'default' and d != 'infernal' and rng.random() < 0.35:
+            # detected with outfmt=: the names of the coordinate columns tell BLAST and MMseqs2 apart
+            cols = rand_cols(rng, d)
+            if all(cols.count(x) == 1 for x in cols) and all(x in cols for x, f in CORE[d].items() if f in ('ss', 'se', 'qs', 'qe')):
+                c['cols'] = [x for x in cols if x != 'sstrand']
+                c['_colmode'] = 'outfmt'
+        if rng.random() < 0.2:
+            c['crlf'] = True
+        if rng.random() < 0.15:
+            c['final_nl'] = False
+        if rng.random() < 0.15 and via != 'stringio':
+            c['enc'] = rng.choice(['utf-8', 'latin-1', 'utf-16', 'utf-8-sig'])
+            if d == 'infernal':
+                c['hits'][-1]['desc'] = rng.choice(LATIN)
+    else:
+        c = rand_case(rng)
+        if len(c['hits']) == 1:
+            c['hits'].append(rand_hit(rng))
+        if via == 'stringio':
+            c.pop('enc', None)
+        if via != 'stringio' and not c.get('enc') and not all(ord(ch) < 128 for ch in render(c)[0]):
+            c['enc'] = 'utf-8'
+    c['_via'] = via
+    c['_tr'] = True
+    if nofmt:
+        c['nofmt'] = True
+    if via == 'gzm':
+        c['cuts'] = rand_cuts(rng, cutmode)
+        if rng.random() < 0.3:
+            c['eof'] = True                             # bgzip ends a file with an empty member
+    return c
+
+
+def transport_cases(rng, n):
+    out = []
+    for r in RENDERINGS:                                # multi-member gzip: every rendering x cut kind x format given / detected
+        for cutmode in ('line', 'in'):
+            for nofmt in (False, True):
+                out.append(transport_case(rng, 'gzm', nofmt, r, cutmode))
+    for via in NEW_VIAS:                                # every transport, format given and detected, all three dialects
+        for d in ('blast', 'mmseqs', 'infernal'):
+            for nofmt in (False, True):
+                out.append(transport_case(rng, via, nofmt, rng.choice([r for r in RENDERINGS if r[0] == d])))
+    for _ in range(n):
+        out.append(transport_case(rng, rng.choice(NEW_VIAS + ['gzm', 'gzm', 'gz']), rng.random() < 0.4))
+    return out
+
+
 def gen_cases(rng, tier):
-    cases = directed_cases() + order_cases() + blank_cases() + encoding_cases() + typed_cases() + freetext_cases()
+    cases = directed_cases() + order_cases() + blank_cases() + encoding_cases() + typed_cases(tier) + freetext_cases()
     cases += block_cases(rng, 1500 if tier == 'thorough' else 60)
     cases += anytext_cases(rng, 3000 if tier == 'thorough' else 200)
     cases += concat_cases(rng, 300 if tier == 'thorough' else 12)
     cases += number_cases(rng, 6000 if tier == 'thorough' else 400)
-    cases += gen_hist(rng, 3000 if tier == 'thorough' else 210)
-    n = 20000 if tier == 'thorough' else 560
+    cases += gen_hist(rng, 3000 if tier == 'thorough' else 150)
+    cases += transport_cases(rng, 600 if tier == 'thorough' else 30)
+    n = 20000 if tier == 'thorough' else 440
     for _ in range(n):
         c = rand_case(rng)
         cases.append(c)
@@ -1103,6 +1188,110 @@ def canon_v(v):
     return ['other', repr(v)]
 
 
+def gz_members(case, data):
+    """the pieces of the file that become the members of the gzip file"""
+    if case['_via'] != 'gzm':
+        return [data]
+    offs = []
+    for cut in case.get('cuts') or []:
+        if not (isinstance(cut, list) and len(cut) == 2 and isinstance(cut[1], int)):
+            continue                                    # (a shrunk case)
+        how, pm = cut
+        o = len(data) * max(0, min(1000, pm)) // 1000
+        if how == 'line':
+            j = data.find(b'\n', o)
+            o = len(data) if j < 0 else j + 1
+        offs.append(o)
+    pieces, a = [], 0
+    for o in sorted(offs) + [len(data)]:
+        pieces.append(data[a:o])
+        a = o
+    if case.get('eof'):
+        pieces.append(b'')
+    return pieces
+
+
+def impl_transport(case, content, kw):
+    """read the table through the transport case['_via']; -> FeatureList"""
+    import sys, gzip, shutil, pathlib, zipfile, tarfile
+    from sugar import read_fts
+    via, enc = case['_via'], case.get('enc')
+    fmt = None if case.get('nofmt') else case['_d']
+    if via == 'stringio':
+        return read_fts(io.StringIO(content), fmt, **kw)
+    data = content.encode(enc or 'ascii')
+    if enc:
+        kw = dict(kw, encoding=enc)
+    if via == 'bytesio':
+        return read_fts(io.BytesIO(data), fmt, **kw)
+    if via == 'bytesio_off':
+        b = io.BytesIO(OFF_PREFIX + data)
+        b.seek(len(OFF_PREFIX))
+        return read_fts(b, fmt, **kw)
+    if via == 'stdin':
+        # a real pipe (blastn ... | sugar ... -): not seekable
+        import threading
+        r, w = os.pipe()
+
+        def feed():
+            try:
+                with os.fdopen(w, 'wb') as f:
+                    f.write(data)
+            except OSError:                         # the reader gave up and closed its end
+                pass
+        th = threading.Thread(target=feed)
+        th.start()
+        old = sys.stdin
+        sys.stdin = os.fdopen(r, 'r')
+        try:
+            return read_fts('-', fmt, **kw)
+        finally:
+            pipe, sys.stdin = sys.stdin, old
+            pipe.close()
+            th.join()
+    tmp = tempfile.mkdtemp(prefix='C11-', dir='/tmp')
+    try:
+        path = os.path.join(tmp, 'hits.txt')
+        if via in ('gz', 'gzm', 'gzarg'):
+            path = os.path.join(tmp, 'hits.dat' if via == 'gzarg' else 'hits.txt.gz')
+            with open(path, 'wb') as f:
+                f.write(b''.join(gzip.compress(p, mtime=0) for p in gz_members(case, data)))
+            if via == 'gzarg':
+                return read_fts(path, fmt, archive='gz', **kw)
+            return read_fts(path, fmt, **kw)
+        with open(path, 'wb') as f:
+            f.write((OFF_PREFIX if via == 'binfile_off' else b'') + data)
+        if via == 'file':
+            return read_fts(path, fmt, **kw)
+        if via == 'path':
+            return read_fts(pathlib.Path(path), fmt, **kw)
+        if via == 'glob':
+            return read_fts(os.path.join(tmp, 'h*.tx?'), fmt, **kw)
+        if via == 'texthandle':
+            kw.pop('encoding', None)
+            with open(path, encoding=enc or 'ascii') as fh:
+                return read_fts(fh, fmt, **kw)
+        if via in ('binfile', 'binfile_off'):
+            with open(path, 'rb') as fh:
+                if via == 'binfile_off':
+                    fh.seek(len(OFF_PREFIX))
+                return read_fts(fh, fmt, **kw)
+        if via == 'zip':
+            apath = os.path.join(tmp, 'hits.zip')
+            with zipfile.ZipFile(apath, 'w') as z:
+                z.write(path, 'results/hits.txt')
+        elif via == 'tar':
+            apath = os.path.join(tmp, 'hits.tar.gz')
+            with tarfile.open(apath, 'w:gz') as t:
+                t.add(path, 'hits.txt')
+        else:
+            raise AssertionError('unknown transport %r' % via)
+        os.unlink(path)
+        return read_fts(apath, fmt, **kw)
+    finally:
+        shutil.rmtree(tmp, ignore_errors=True)
+
+
 def impl_step(case, shared=None):
     """one read; -> (canonical result, the FeatureList, the comments list or None)"""
     from sugar import read_fts
@@ -1112,7 +1301,9 @@ def impl_step(case, shared=None):
     if case.get('comments'):
         cm = kw['comments'] = shared if (case['comments'] == 'shared' and shared is not None) else []
     enc = case.get('enc')
-    if enc:
+    if case.get('_tr'):
+        fts = impl_transport(case, content, kw)
+    elif enc:
         # the table stored in another text encoding, read with the documented encoding= option from a path, from a
         # binary file handle or from a BytesIO; expected = the features of the decoded text
         data = content.encode(enc)
@@ -1269,6 +1460,8 @@ def impl_hist(case):
 
 def univ(case):
     """does the transport translate line ends (text layer with newline=None)?"""
+    if case.get('_tr'):
+        return case['_via'] != 'stringio'
     if case.get('enc'):
         return True
     content, _ = render(case)
@@ -1473,6 +1666,12 @@ def nontrivial_step(case, got):
 
 def histkey_step(case, got):
     ks = ['dialect=' + case['_d'], 'result=' + (got['e'] if is_err(got) else 'ok')]
+    ks.append('via=' + str(case.get('_via')) + ('+encoding' if case.get('enc') else ''))
+    if case.get('_tr'):
+        ks.append('transport=%s,%s' % (case['_via'], 'detected' if case.get('nofmt') else 'given'))
+        if case['_via'] == 'gzm' and not is_err(got) and len(got if isinstance(got, list) else got['fts']) > 0:
+            ks.append('gzm_nonempty=%s,%s,%s' % (case['_d'], 'detected' if case.get('nofmt') else 'given',
+                                                '+'.join(sorted(set(str(c[0]) for c in case.get('cuts') or [] if c)))))
     if 'content' in case:
         ks.append('kind=raw')
     else:
@@ -1484,6 +1683,21 @@ def histkey_step(case, got):
 
 def python_snippet_step(case):
     content, kw = render(case)
+    if case.get('_tr'):
+        enc = case.get('enc')
+        data = content.encode(enc or 'ascii')
+        fmt = None if case.get('nofmt') else case['_d']
+        if enc:
+            kw = dict(kw, encoding=enc)
+        tail = 'for ft in fts: print(ft.loc.start, ft.loc.stop, ft.loc.strand, dict(ft.meta))'
+        if case['_via'] in ('gz', 'gzm'):
+            return ('import gzip, os, tempfile; from sugar import read_fts\nmembers = %r\n'
+                    'tmp = tempfile.mkdtemp(); path = os.path.join(tmp, "hits.txt.gz")\n'
+                    'with open(path, "wb") as f: f.write(b"".join(gzip.compress(m) for m in members))\n'
+                    'fts = read_fts(path, %r, **%r)   # expected: the same as from the plain file b"".join(members)\n%s'
+                    % (gz_members(case, data), fmt, kw, tail))
+        return ('import io; from sugar import read_fts\n# transport of the failing case: %s (see impl_transport in tools/props/c11.py)\n'
+                'fts = read_fts(io.BytesIO(%r), %r, **%r)\n%s' % (case['_via'], data, fmt, kw, tail))
     if case.get('enc'):
         return ('import io; from sugar import read_fts\nfts = read_fts(io.BytesIO(%r.encode(%r)), %r, encoding=%r, **%r)\n'
                 'for ft in fts: print(ft.loc.start, ft.loc.stop, ft.loc.strand, dict(ft.meta))'
@@ -1570,6 +1784,12 @@ RENDERINGS = [('blast', '6', 'default'), ('blast', '7', 'header'), ('blast', '10
               ('infernal', '2old', 'default')]
 
 
+def _brief(r):
+    if isinstance(r, dict) and 'e' in r:
+        return 'raises ' + str(r['e'])
+    return '%d features' % len(fts_of(r))
+
+
 def extra_checks(rng, tier, cov):
     """the same hits through every rendering read to equal locations, strands and common metadata"""
     from framework import run_impl, jcanon
@@ -1607,6 +1827,28 @@ def extra_checks(rng, tier, cov):
                 break
             done += 1
     cov['dialect_independence_reads'] = done
+    # transport independence: the same table (same options, format given or detected) through every transport reads to what
+    # the plain file reads to - features, order, metadata and error class
+    tdone, gzm = 0, 0
+    for case in transport_cases(rng, 300 if tier == 'thorough' else 0):
+        if case['_via'] == 'file':
+            continue
+        plain = dict(case, _via='file')
+        if not plain.get('enc') and not all(ord(ch) < 128 for ch in render(plain)[0]):
+            continue
+        want = jcanon(run_impl(impl, plain))
+        got = jcanon(run_impl(impl, case))
+        if case['_via'] == 'stringio' and case.get('crlf'):
+            continue                                    # a StringIO does not translate line ends, a file does
+        if got != want:
+            yield {'case': case, 'impl': got,
+                   'spec': 'transport independence: through %s %s, the plain file reads %s'
+                           % (case['_via'], _brief(got), _brief(want))}
+            continue
+        tdone += 1
+        gzm += case['_via'] == 'gzm' and isinstance(got, list) and len(got) > 0
+    cov['transport_independence_reads'] = tdone
+    cov['transport_independence_multimember_gzip_nonempty'] = gzm
 
 
 LEVEL_TEXT = ('Machine-checked Coq theorems about an executable model of read_tabular, for all integers and all strings: '
@@ -1651,7 +1893,9 @@ LEVEL_TEXT = ('Machine-checked Coq theorems about an executable model of read_ta
               'name rows, concatenated Infernal tables), a directed typed-column stream (every column of every table with signed, zero, '
               'padded, exponent, inf/nan and non-numeric tokens), a literal stream (about 1 500 literals per quick run: grammar texts, words, '
               'one-character mutations, blanks of every kind; the Gallina int()/float() against CPython and against an exact-rational '
-              'oracle), concatenation histories and multi-read histories; all statements of the '
+              'oracle), concatenation histories, multi-read histories and a transport stream (every documented way to hand a table over - '
+              'path, Path, text / binary handle, handle at an offset, BytesIO, StringIO, .gz, multi-member .gz, archive="gz", zip, tar.gz, glob, '
+              'a stdin pipe - with the format given and detected, compared with the model on the text and with the plain-file read); all statements of the '
               'modelled functions are executed in the quick tier.')
 LEVEL_NOTE = ('Trusted: Coq kernel/vm_compute, tools/gens/c11.py (tables), the correspondence harness, CPython int()/float()/str methods '
               '(the Gallina int()/float() are compared with CPython on every case and on the literal stream; the Gallina float() is characterised as a '
@@ -1664,7 +1908,11 @@ LEVEL_NOTE = ('Trusted: Coq kernel/vm_compute, tools/gens/c11.py (tables), the c
               'MMseqs2 fmtmode 4 and BLAST outfmt 7 header discovery combined with '
               'sep=None in the rendered-file theorems (4)/(5) (the any-text theorems (6) cover every separator and a last line without '
               'terminator); the Infernal lines BEFORE the ruler in the any-text theorems (they must be comment lines without "--"); the sniffers '
-              'is_fts_* (property C03); everything between the file name and the text (main.py: archives, glob, stdin, detection). '
+              'is_fts_* (property C03); everything between the file name and the text (main.py: gzip members, archives, glob, stdin, handles at an '
+              'offset, Path, detection of the dialect) - the transport stream reads each table through 15 transports (about 50 non-empty tables per '
+              'quick run through multi-member gzip files whose members end at line boundaries and inside lines, with and without an empty '
+              'final member, for all three dialects, format given and detected - by default columns and by outfmt=) and compares with the model on '
+              'the text, with the first-principles oracle and with the plain-file read. '
               'The declared-type table of the Coq model and the one of the Python oracle are two hand-written copies of the manuals; the '
               'regenerated _HEADER table is compared with the first by C11_declared_tables and with the second by the typed-column stream. '
               'In the end-to-end theorems a hit under a selection with a strand column must have a direction '
